@@ -56,7 +56,7 @@ def check_url(u, o, fails, tags):
             fails.append((PROP + ".normalized-hostname", {"normalize_url": n[1], "host": exp}, val(gh)))
         st = core.guarded(lru.normalized_lru_stems, u, suffix_aware=sa, normalize_amp=na, infer_redirection=ir)
         ref = core.guarded(lru.lru_stems, n[1], suffix_aware=sa)
-        if ref[0] == "ok":
+        if ref[0] == "ok" and exp is not None:  # an unparseable passthrough has no stems to speak of
             e = [x for x in ref[1] if not x.startswith("s:")]
             if val(st) != e:
                 fails.append((PROP + ".normalized-stems", {"normalize_url": n[1], "stems": e}, val(st)))
@@ -68,7 +68,7 @@ def check_url(u, o, fails, tags):
             fails.append((PROP + ".fingerprinted-hostname", {"fingerprint_url": f[1], "host": exp}, val(gf)))
         st = core.guarded(lru.fingerprinted_lru_stems, u, suffix_aware=sa, strip_suffix=ss)
         ref = core.guarded(lru.lru_stems, f[1], suffix_aware=sa)
-        if ref[0] == "ok":
+        if ref[0] == "ok" and exp is not None:
             e = [x for x in ref[1] if not x.startswith("s:")]
             if val(st) != e:
                 fails.append((PROP + ".fingerprinted-stems", {"fingerprint_url": f[1], "stems": e}, val(st)))
